@@ -370,7 +370,9 @@ def run_kani(harnesses, jobs=None, timeout_s=None):
         if os.path.exists(kdir): shutil.rmtree(kdir)
         shutil.copytree(KANI_DIR, kdir, ignore=shutil.ignore_patterns('target'))
         open(os.path.join(kdir, 'Cargo.toml'), 'w').write(open(ct).read().replace('/repo/etherparse', REPO + '/etherparse'))
-        env['CARGO_TARGET_DIR'] = os.path.join(CACHE, 'kani-target-alt')
+        # build output of a scratch tree goes where the caller says (tools/seedrun.sh: inside the scratch copy, removed with it) - a shared
+        # directory grows by several GB per tree
+        env['CARGO_TARGET_DIR'] = os.environ.get('VERIF_ALT_TARGET') or os.path.join(CACHE, 'kani-target-alt')
     base_cmd = ['cargo', 'kani', '-Z', 'function-contracts', '-Z', 'stubbing']
     pb_flags = ['-Z', 'concrete-playback', '--concrete-playback=print']
     # one build, then one cargo-kani process per harness in parallel (regular output keeps the per-check details)
